@@ -366,15 +366,19 @@ def main():
     jobs = a.jobs or (spec.JOBS.get(tier, 4) if hasattr(spec, 'JOBS') else (4 if tier == 'quick' else 16))
 
     if a.replay:
+        # Case generation is a deterministic function of (property, seed, tier, scale, shards): re-execute exactly that run
+        # and report whether the recorded failing input fails again.
         rp = json.load(open(a.replay))
-        print(json.dumps(rp, indent=1)[:4000])
-        mod_args = (modname, prop, tier, rp.get('seed', seed), rp.get('scale', 1), tuple(rp.get('shard', (0, 1))), rp.get('searching', False))
-        r = _worker(mod_args) if False else run_shards(modname, prop, tier, rp.get('seed', seed), rp.get('scale', 1), rp.get('jobs', jobs), rp.get('searching', False))
-        bad = [f for f in r['oracle_failures']]
-        print(f'replay: re-ran seed={rp.get("seed", seed)}: {len(bad)} oracle failures, {r["n_mismatches"]} correspondence mismatches')
-        for f in bad[:5]:
-            print('  ', json.dumps(f)[:600])
-        sys.exit(1 if bad or r['n_mismatches'] else 0)
+        print('replaying', a.replay)
+        print(json.dumps(rp.get('failing_input') or rp.get('no_longer_checks'), indent=1)[:3000])
+        r = run_shards(modname, prop, rp.get('tier', tier), rp.get('seed', seed), rp.get('scale', 1), rp.get('jobs', jobs), rp.get('searching', False))
+        want = json.dumps((rp.get('failing_input') or {}).get('case'), sort_keys=True)
+        same = [f for f in r['oracle_failures'] if json.dumps(f.get('case'), sort_keys=True) == want]
+        print(f'replay: {len(r["oracle_failures"])} oracle failures ({len(same)} on the recorded input), {r["n_mismatches"]} correspondence mismatches')
+        if r['oracle_failures'] or r['n_mismatches']:
+            print(f'VIOLATION property={prop} replay={a.replay}')
+            sys.exit(1)
+        sys.exit(0)
 
     # 1. Lean side
     lean = {'ok': False}
